@@ -33,6 +33,10 @@ type channelBroker struct {
 	// get funneled into for handling
 	msgChan chan *uasc.MessageBody
 	logger  Logger
+
+	// securityAllowed decides which security policies and modes clients may
+	// open a secure channel with. See uasc.Config.SecurityAllowed.
+	securityAllowed func(policyURI string, mode ua.MessageSecurityMode) error
 }
 
 func newChannelBroker(logger Logger) *channelBroker {
@@ -55,6 +59,7 @@ func (c *channelBroker) RegisterConn(ctx context.Context, conn *uacp.Conn, local
 	cfg := defaultChannelConfig()
 	cfg.Certificate = localCert
 	cfg.LocalKey = localKey
+	cfg.SecurityAllowed = c.securityAllowed
 
 	c.mu.Lock()
 	c.secureChannelID++
@@ -109,6 +114,11 @@ outer:
 				if c.logger != nil {
 					c.logger.Error("Secure Channel %d error: %s", secureChannelID, msg.Err)
 				}
+				// tell the client why the channel is gone instead of
+				// leaving it waiting for a response until it times out.
+				if code, ok := msg.Err.(ua.StatusCode); ok {
+					conn.SendError(code)
+				}
 				break outer
 			}
 			// todo(fs): honor ctx
@@ -119,6 +129,8 @@ outer:
 	c.mu.Lock()
 	delete(c.s, secureChannelID)
 	c.mu.Unlock()
+	// nobody reads from the connection anymore.
+	conn.Close()
 	c.wg.Done()
 
 	return nil
